@@ -16,6 +16,7 @@ import (
 	"github.com/ThreeDotsLabs/watermill/components/cqrs"
 	"github.com/ThreeDotsLabs/watermill/components/requestreply"
 	"github.com/ThreeDotsLabs/watermill/message"
+	"github.com/ThreeDotsLabs/watermill/message/router/middleware"
 	"github.com/ThreeDotsLabs/watermill/pubsub/gochannel"
 
 	"wmverif/gc"
@@ -31,10 +32,14 @@ type ReqSpec struct {
 	//         never (never reads; ends the context late)
 	//         early (ends the context right after SendWithReplies returned, before any reply; ReadAfter: then drains)
 	//         reply / replyearly (SendWithReply; replyearly: the parent context is cancelled while it waits)
-	//         sendfail (SendWithReplies whose command bus fails: it returns an error after the listener was started)
+	//         sendfail / replysendfail (SendWithReplies / SendWithReply whose command bus fails: an error is returned after the
+	//         listener was started; replysendfail: the caller's own context ends late)
 	Caller    string   `json:"c"`
 	End       string   `json:"e"` // how the context ends: cancel | parent | timeout (= nobody ends it, the backend's timeout does)
-	Outcomes  []string `json:"o"` // per delivery: ok | err | bad | panic | pubfail | slow (= ok, but only after the listener finished)
+	// per delivery: ok | err | bad | panic | pubfail | slow (= ok, but only after the listener finished) |
+	// ctxok / ctxerr (the handler works until its message context ends – Scenario.HandlerTimeoutMs – and then returns its result
+	// with a nil error / with ctx.Err())
+	Outcomes []string `json:"o"`
 	ReadAfter bool     `json:"r,omitempty"`
 	// DeadlineMs > 0: the caller's own context carries a deadline (a request-scoped context); the listener ends at the
 	// earlier of this deadline and the backend's ListenForReplyTimeout
@@ -62,6 +67,8 @@ type Scenario struct {
 	Park      *ParkSpec `json:"p,omitempty"`
 	Foreign   int       `json:"f,omitempty"` // notifications with a foreign / missing operation id injected on the reply topic(s)
 	CloseSub  bool      `json:"k,omitempty"` // the reply Pub/Sub is closed before the callers end their contexts ("subscriber closed" path)
+	BlockReplies     bool `json:"b,omitempty"` // the reply Pub/Sub waits for its subscribers' acks (BlockPublishUntilSubscriberAck)
+	HandlerTimeoutMs int  `json:"m,omitempty"` // middleware.Timeout on the Router: the command message's context ends while ctxok/ctxerr handlers run
 	NoHook    bool      `json:"h,omitempty"` // OnListenForReplyFinished is not configured (nil): the end of the listeners is observed by the goroutine census
 	HookWait  bool      `json:"w,omitempty"` // the hook of a draining caller waits until that caller has seen the channel closed (order close → hook)
 	Tag       string    `json:"g,omitempty"`
@@ -87,9 +94,9 @@ func (sc Scenario) Describe() string { b, _ := json.Marshal(sc); return string(b
 // acks reports whether a handler outcome ends the redelivery chain (the command is acked).
 func acks(outcome string, ackErrs bool) bool {
 	switch outcome {
-	case "ok", "bad", "slow":
+	case "ok", "bad", "slow", "ctxok":
 		return true
-	case "err":
+	case "err", "ctxerr":
 		return ackErrs
 	}
 	return false // panic, pubfail
@@ -329,7 +336,8 @@ func Run(sc Scenario) *Result {
 
 	logger := watermill.NopLogger{}
 	pubSub := gochannel.NewGoChannel(gochannel.Config{}, logger)  // commands
-	replyPS := gochannel.NewGoChannel(gochannel.Config{}, logger) // reply notifications
+	replyPS := gochannel.NewGoChannel(gochannel.Config{BlockPublishUntilSubscriberAck: sc.BlockReplies}, logger) // reply notifications
+	var lateCancels []func() // contexts of callers that rely on the time-out: cancelled only when the scenario is torn down
 	stopAll := make(chan struct{})
 	var watchers sync.WaitGroup
 
@@ -437,6 +445,9 @@ func Run(sc Scenario) *Result {
 		res.Stuck = append(res.Stuck, "setup: "+err.Error())
 		return res
 	}
+	if sc.HandlerTimeoutMs > 0 {
+		router.AddMiddleware(middleware.Timeout(time.Duration(sc.HandlerTimeoutMs) * time.Millisecond))
+	}
 	marshaler := cqrs.JSONMarshaler{}
 	bus, _ := cqrs.NewCommandBusWithConfig(pubSub, cqrs.CommandBusConfig{
 		GeneratePublishTopic: func(cqrs.CommandBusGeneratePublishTopicParams) (string, error) { return "commands", nil },
@@ -500,6 +511,19 @@ func Run(sc Scenario) *Result {
 			}
 			rec.Log("hr", ks, is, "r", wh.HexS(v), "-")
 			return Res{V: v}, nil
+		case "ctxok", "ctxerr":
+			// works until the message's context ends (Router time-out middleware), then reports what it has
+			select {
+			case <-ctx.Done():
+			case <-time.After(liveness):
+				rec.Log("note", "the message context of request "+is+" never ended")
+			}
+			if outcome == "ctxok" || ctx.Err() == nil {
+				rec.Log("hr", ks, is, "r", wh.HexS(v), "-")
+				return Res{V: v}, nil
+			}
+			rec.Log("hr", ks, is, "r", wh.HexS(v), "="+wh.HexS(ctx.Err().Error()))
+			return Res{V: v}, ctx.Err()
 		case "err":
 			e := fmt.Sprintf("e%d.%d failed: %x", i, att, sc.Seed&0xff) + percentTexts[(int(sc.Seed&0xffff)+i+att)%len(percentTexts)]
 			rec.Log("hr", ks, is, "r", wh.HexS(v), "="+wh.HexS(e))
@@ -559,12 +583,19 @@ func Run(sc Scenario) *Result {
 			if spec.DeadlineMs > 0 {
 				parent, pcancel = context.WithTimeout(context.Background(), time.Duration(spec.DeadlineMs)*time.Millisecond)
 			}
-			defer pcancel()
+			if spec.End == "timeout" {
+				// a caller that relies on the time-out never cancels anything itself
+				rs.mu.Lock()
+				lateCancels = append(lateCancels, pcancel)
+				rs.mu.Unlock()
+			} else {
+				defer pcancel()
+			}
 			var sentOnce sync.Once
 			markSent := func() { sentOnce.Do(func() { close(sent[i]) }) }
 			defer markSent()
 			var endOnce sync.Once
-			if spec.Caller == "reply" || spec.Caller == "replyearly" {
+			if spec.Caller == "reply" || spec.Caller == "replyearly" || spec.Caller == "replysendfail" {
 				rec.Log("cy", is) // the context of this request ends at some point inside SendWithReply (deferred cancel)
 				if spec.Caller == "replyearly" {
 					go func() {
@@ -582,9 +613,10 @@ func Run(sc Scenario) *Result {
 						rec.Log("px", is)
 						pcancel()
 					}()
-				} else {
+				} else if spec.Caller == "reply" {
 					go func() {
-						// SendWithReply blocks until the first reply: tell the controller once the listener exists
+						// SendWithReply blocks until the first reply: tell the controller once the listener is being set up
+						// (the controller then waits for this request's command to be acked before it goes on)
 						for j := 0; j < 20000; j++ {
 							rs.mu.Lock()
 							_, ok := rs.opOf[i]
@@ -597,9 +629,25 @@ func Run(sc Scenario) *Result {
 						markSent()
 					}()
 				}
-				r, err := requestreply.SendWithReply[Res](parent, bus, backend, &Cmd{Req: i})
+				rbus := requestreply.CommandBus(bus)
+				if spec.Caller == "replysendfail" {
+					rbus = failBus // the command cannot be sent: SendWithReply returns only an error, the caller has nothing to cancel
+				}
+				r, err := requestreply.SendWithReply[Res](parent, rbus, backend, &Cmd{Req: i})
+				if spec.Caller == "replysendfail" {
+					markSent() // returned at once: only now may the controller go on (e.g. close the reply Pub/Sub)
+				}
 				if err != nil {
 					rec.Log("sr", is, "err")
+					if spec.Caller == "replysendfail" {
+						// the caller's own context ends late
+						select {
+						case <-late:
+						case <-time.After(3 * liveness):
+						}
+						rec.Log("px", is)
+						pcancel()
+					}
 				} else {
 					rec.Log("sr", is, "ok")
 					logReply(i, r)
@@ -641,8 +689,14 @@ func Run(sc Scenario) *Result {
 					close(ended[i])
 				})
 			}
+			if spec.End == "timeout" {
+				rs.mu.Lock()
+				lateCancels = append(lateCancels, cancel)
+				rs.mu.Unlock()
+				endCtx() // logs that this caller leaves the end of the request to the time-out
+			}
 			defer func() {
-				// "It's important to cancel": every caller finally cancels (a no-op when the context already ended)
+				// "It's important to cancel": every other caller finally cancels (a no-op when the context already ended)
 				endOnce.Do(func() {
 					rec.Log("cx", is)
 					cancel()
@@ -689,7 +743,7 @@ func Run(sc Scenario) *Result {
 			}
 			expected := 0
 			for _, o := range spec.Outcomes {
-				if o == "ok" || o == "err" || o == "bad" {
+				if o == "ok" || o == "err" || o == "bad" || o == "ctxok" || o == "ctxerr" {
 					expected++
 				}
 			}
@@ -800,7 +854,7 @@ func Run(sc Scenario) *Result {
 				slow = true
 			}
 		}
-		if slow || sc.Reqs[i].Caller == "replyearly" || sc.Reqs[i].Caller == "sendfail" {
+		if slow || sc.Reqs[i].Caller == "replyearly" || sc.Reqs[i].Caller == "sendfail" || sc.Reqs[i].Caller == "replysendfail" {
 			continue
 		}
 		if !waitCh(ackedFinal[i], left()) {
@@ -867,13 +921,21 @@ func Run(sc Scenario) *Result {
 	// every handler invocation must have been settled by now (slow handlers returned when their listener finished)
 	deadline = time.Now().Add(bound())
 	for i := 0; i < n; i++ {
-		if sc.Reqs[i].Caller == "replyearly" || sc.Reqs[i].Caller == "sendfail" || len(res.Stuck) > 0 {
+		if sc.Reqs[i].Caller == "replyearly" || sc.Reqs[i].Caller == "sendfail" || sc.Reqs[i].Caller == "replysendfail" || len(res.Stuck) > 0 {
 			continue
 		}
 		if !waitCh(ackedFinal[i], left()) {
 			stuck("command of request " + strconv.Itoa(i) + " never acked (end)")
+			// a handler invocation of this request returned, yet its command is neither acked nor redelivered-and-acked within
+			// the liveness bound although no caller holds anything back
+			rec.Log("ns", strconv.Itoa(i))
 		}
 	}
+	rs.mu.Lock()
+	for _, c := range lateCancels {
+		c()
+	}
+	rs.mu.Unlock()
 	closeDone := make(chan struct{})
 	go func() {
 		_ = router.Close()
@@ -930,7 +992,7 @@ func (r *Result) TopTrace() string {
 	}
 	for _, e := range r.Events {
 		switch e.Kind {
-		case "op", "sr", "hs", "hr", "pc", "pr", "ak", "nk", "rv", "cx", "px", "cy", "te", "zz", "fin", "fz", "end", "cp":
+		case "op", "sr", "hs", "hr", "pc", "pr", "ak", "nk", "rv", "cx", "px", "cy", "te", "zz", "fin", "fz", "end", "cp", "ns":
 			b.WriteString(" " + e.Kind)
 			for _, f := range e.F {
 				b.WriteString("," + f)
@@ -1067,6 +1129,12 @@ func Emit(out *wh.Out, res *Result) {
 	}
 	if sc.NoHook {
 		out.Count("no-finished-hook-configured")
+	}
+	if sc.BlockReplies {
+		out.Count("reply-pubsub-waits-for-acks")
+	}
+	if sc.HandlerTimeoutMs > 0 {
+		out.Count("router-timeout-middleware")
 	}
 	for _, q := range sc.Reqs {
 		if q.DeadlineMs > 0 {
